@@ -187,6 +187,15 @@ func (p *Pool) Contains(ip net.IP) bool {
 	return p.Network.Contains(ip)
 }
 
+// AllocatedTo returns the IP this pool currently holds for a MAC address
+// (offered or leased), or nil if there is none. It never allocates.
+func (p *Pool) AllocatedTo(mac net.HardwareAddr) net.IP {
+	p.mu.Lock()
+	defer p.mu.Unlock()
+
+	return p.allocated[mac.String()]
+}
+
 // MarkUnavailable marks an IP as unavailable (e.g., after DECLINE)
 func (p *Pool) MarkUnavailable(ip net.IP) {
 	p.mu.Lock()
